@@ -389,3 +389,60 @@ def ob_pause_resume_run(k: int, nfail: int) -> bool:
 
 KPAUSE = B(5, 7)
 NFPAUSE = B(1, 2)
+
+
+# ----------------------------------------------------------------------------------------------- restored values are the run's own
+_POOL = ["[]", "{}", "[1]", '{"x": []}', "0"]
+
+
+def _restore_scenario(ka: int, kb: int, twice: bool, via_ctx: bool):
+    """state {a: POOL[ka], b: POOL[kb]} -> to_dict -> JSON -> from_dict (with the module's ONE application-level serializer, as a server
+    does); a is then mutated in place the way a step does inside edit_state(); returns what the statement constrains"""
+    from workflows.context.state_store import DictState, InMemoryStateStore
+
+    va, vb = json.loads(_POOL[ka]), json.loads(_POOL[kb])
+    payload = json.loads(json.dumps(InMemoryStateStore(DictState(a=va, b=vb)).to_dict(SER)))
+
+    def restore():
+        return InMemoryStateStore.from_dict(json.loads(json.dumps(payload)), SER)
+
+    def touch(v):
+        if isinstance(v, list):
+            v.append("touched")
+        elif isinstance(v, dict):
+            v["touched"] = True
+
+    async def scenario():
+        s1 = restore()
+        before_b = json.dumps(await s1.get("b"))
+        async with s1.edit_state() as st:
+            touch(st.a)
+        after_b = json.dumps(await s1.get("b"))
+        a1 = json.dumps(await s1.get("a"))
+        second = None
+        if twice:
+            s2 = restore()
+            second = (json.dumps(await s2.get("a")), json.dumps(await s2.get("b")))
+        return before_b, after_b, a1, second
+
+    return vlib.boot.drive(scenario()), json.dumps(va), json.dumps(vb)
+
+
+@obligation(quick=120, thorough=300, partitions_quick=[f"ka == {k}" for k in range(len(_POOL))],
+            what="a state store restored from a snapshot (to_dict -> JSON -> from_dict through one long-lived serializer): its values equal the "
+                 "snapshot's, an in-place update of one value (what a step does inside edit_state) changes no other value even when the two "
+                 "were serialized to identical payloads, and a second restore of the same snapshot starts from the snapshot again, not from "
+                 "what the first resumed run did to its objects",
+            bounds={"values": "[] / {} / [1] / {'x': []} / 0 for each of two keys", "restores": "1..2"})
+def ob_restored_values_independent(ka: int, kb: int, twice: bool) -> bool:
+    """
+    pre: 0 <= ka < len(_POOL) and 0 <= kb < len(_POOL)
+    post: _
+    """
+    ka, kb, twice = conc(ka, 0, len(_POOL) - 1), conc(kb, 0, len(_POOL) - 1), concb(twice)
+    (before_b, after_b, a1, second), va, vb = native(_restore_scenario, ka, kb, twice, False)
+    if before_b != vb or after_b != vb:
+        return False          # b differs from the snapshot, or moved when a was updated
+    if second is not None and second != (va, vb):
+        return False          # the second resume did not start from the snapshot
+    return True
